@@ -1,4 +1,4 @@
-from checks import mibcompile, oidindex, atomicwrite, searcher, readerlookup, history, oidtree, decls
+from checks import mibcompile, oidindex, atomicwrite, searcher, readerlookup, history, oidtree, decls, refs
 
 RULE_MC = ('scenario = terminal state of MibCompile.tla exported by TLC (request x lazily chosen answers of every '
            'component x options); non-trivial = at least one component answered with a failure / fresh / borrow; '
@@ -56,3 +56,6 @@ REGISTRY['C01'] = {'run': oidtree.run, 'replay': oidtree.replay, 'finish': {
 
 REGISTRY['C03'] = {'run': decls.run, 'replay': decls.replay, 'finish': {
     'rule': 'scenario = reachable state of Decls.tla (declaration list over all clause kinds x status x access x units x revision lists x insertion positions); non-trivial = at least two declarations; distinct by attribute list', 'exhaustive': False}}
+
+REGISTRY['C06'] = {'run': refs.run, 'replay': refs.replay, 'finish': {
+    'rule': 'scenario = state of Refs.tla: table aspect (columns x INDEX lists x IMPLIED x text order x augmenting row), list aspect (OBJECTS / NOTIFICATIONS / VARIABLES lists of length 0-3 mixing local and imported objects), compliance aspect (MODULE parts x MANDATORY-GROUPS x GROUP/OBJECT clause orders); all are replayed; distinct by scenario', 'exhaustive': True}}
